@@ -1546,7 +1546,7 @@ impl<Alloc: BrotliAlloc> BrotliEncoderStateStruct<Alloc> {
         seal |= 0x6u32 << seal_bits;
 
         seal_bits = seal_bits.wrapping_add(6);
-        if !IsNextOutNull(&self.next_out_) {
+        if !IsNextOutNull(&self.next_out_) && self.available_out_ != 0 {
             destination = &mut GetNextOut!(*self)[self.available_out_..];
         } else {
             destination = &mut self.tiny_buf_[..];
